@@ -7,6 +7,7 @@ import (
 	"strings"
 	"time"
 
+	"github.com/gotd/td/telegram/updates"
 	"github.com/gotd/td/tg"
 )
 
@@ -140,6 +141,17 @@ func (e *Env) apply(a Action) {
 		e.Push(&tg.Updates{Updates: []tg.UpdateClass{tl}})
 	case "W":
 		time.Sleep(650 * time.Millisecond)
+	case "F": // every armed gap timer fires now (hook); wait until the owners have reacted
+		before := e.apiCalls()
+		n, chans := updates.VerifC02FireGapTimers(e.M)
+		want := n + len(chans)
+		deadline := time.Now().Add(20 * time.Second)
+		for want > 0 && e.apiCalls() < before+want && time.Now().Before(deadline) {
+			time.Sleep(50 * time.Microsecond)
+		}
+		if want > 0 && e.apiCalls() < before+want && e.Err == "" {
+			e.Err = "fired gap timers were not handled"
+		}
 	case "sl":
 		w.mu.Lock()
 		w.Slice = a.N
